@@ -36,19 +36,18 @@ Theorem C30_point_segment_total :
 Proof. exact point_segment_total. Qed.
 Print Assumptions C30_point_segment_total.
 
-(* segment-segment, every branch of the case analysis, ANY positive tolerance (so also
-   inside the SMALL_TOLERANCE band): for segments of positive length a result is returned,
+(* segment-segment, every branch of the case analysis (also inside the tolerance band):
+   for segments of positive length a result is returned,
    both parameters lie in [0,1], the closest points are the corresponding points of the
    two segments and the returned squared distance is their squared distance.
    (_partial in the name: this statement alone does not give optimality; see
    C30_segseg_optimal_partial below for the global minimum off the tolerance band.) *)
 Theorem C30_segseg_sound_partial :
-  forall (small : R) (a b c d : v3 R),
-    0 < small ->
+  forall (a b c d : v3 R),
     0 < dot R RO (vsub R RO b a) (vsub R RO b a) ->
     0 < dot R RO (vsub R RO d c) (vsub R RO d c) ->
     exists dist2 cp1 cp2 sc tc,
-      seg_seg R RO small a b c d = Ok (dist2, cp1, cp2, sc, tc) /\
+      seg_seg R RO a b c d = Ok (dist2, cp1, cp2, sc, tc) /\
       0 <= sc <= 1 /\ 0 <= tc <= 1 /\
       cp1 = vadd R RO a (vscale R RO sc (vsub R RO b a)) /\
       cp2 = vadd R RO c (vscale R RO tc (vsub R RO d c)) /\
@@ -56,17 +55,15 @@ Theorem C30_segseg_sound_partial :
 Proof. exact seg_seg_sound. Qed.
 Print Assumptions C30_segseg_sound_partial.
 
-(* segment_segment_set(a, b, set): with the tolerance the code derives from the whole set,
-   the same holds for every segment of a set of positive-length segments. *)
+(* segment_segment_set(a, b, set): the same for every segment of a set of positive-length
+   segments (the tolerances are relative, per pair). *)
 Theorem C30_segseg_set_sound_partial :
   forall (a b : v3 R) (set : list (v3 R * v3 R)),
     proper (a, b) -> Forall proper set ->
-    seg_seg_set R RO a b set
-      = map (fun s => seg_seg R RO (small_tol R RO a b set) a b (fst s) (snd s)) set /\
+    seg_seg_set R RO a b set = map (fun s => seg_seg R RO a b (fst s) (snd s)) set /\
     forall s, In s set ->
       exists dist2 cp1 cp2 sc tc,
-        seg_seg R RO (small_tol R RO a b set) a b (fst s) (snd s)
-          = Ok (dist2, cp1, cp2, sc, tc) /\
+        seg_seg R RO a b (fst s) (snd s) = Ok (dist2, cp1, cp2, sc, tc) /\
         0 <= sc <= 1 /\ 0 <= tc <= 1 /\
         cp1 = vadd R RO a (vscale R RO sc (vsub R RO b a)) /\
         cp2 = vadd R RO (fst s) (vscale R RO tc (vsub R RO (snd s) (fst s))) /\
@@ -75,35 +72,33 @@ Proof. exact seg_seg_set_sound. Qed.
 Print Assumptions C30_segseg_set_sound_partial.
 
 (* segment-segment, GLOBAL OPTIMALITY off the tolerance band: whenever [off_band] holds --
-   the discriminant is 0 (exactly parallel) or >= SMALL_TOLERANCE, and the final numerators
-   sN, tN are 0 or >= SMALL_TOLERANCE, i.e. none of the three tolerance masks alters the
-   exact algorithm -- the returned squared distance is the minimum of
+   the discriminant is 0 (exactly parallel) or >= 1e-8*|d1|^2*|d2|^2, and the final
+   numerators sN, tN are 0 or >= 1e-8 times their denominators, i.e. none of the three
+   (relative) tolerance masks alters the exact algorithm -- the returned squared distance is the minimum of
    |a + s(b-a) - c - t(d-c)|^2 over the whole square [0,1]^2 (all 28 branch combinations;
    convexity argument + KKT per stage).
    _partial: inside the band the result is in general NOT the minimum (nearly parallel
    segments are treated as parallel, tiny parameters are set to 0): see the Example
    C30_segseg_band_example below. *)
 Theorem C30_segseg_optimal_partial :
-  forall (small : R) (a b c d : v3 R) dist2 cp1 cp2 sc tc,
-    0 < small ->
+  forall (a b c d : v3 R) dist2 cp1 cp2 sc tc,
     0 < dot R RO (vsub R RO b a) (vsub R RO b a) ->
     0 < dot R RO (vsub R RO d c) (vsub R RO d c) ->
-    off_band R RO small a b c d = true ->
-    seg_seg R RO small a b c d = Ok (dist2, cp1, cp2, sc, tc) ->
+    off_band R RO a b c d = true ->
+    seg_seg R RO a b c d = Ok (dist2, cp1, cp2, sc, tc) ->
     forall s t, 0 <= s <= 1 -> 0 <= t <= 1 ->
       dist2 <= normsq R RO (vsub R RO (vadd R RO a (vscale R RO s (vsub R RO b a)))
                                        (vadd R RO c (vscale R RO t (vsub R RO d c)))).
 Proof. exact seg_seg_optimal. Qed.
 Print Assumptions C30_segseg_optimal_partial.
 
-(* ... for segment_segment_set with the tolerance derived from the set. *)
+(* ... for segment_segment_set. *)
 Theorem C30_segseg_set_optimal_partial :
   forall (a b : v3 R) (set : list (v3 R * v3 R)),
     proper (a, b) -> Forall proper set -> off_band_set R RO a b set = true ->
     forall s0, In s0 set ->
       forall dist2 cp1 cp2 sc tc,
-        seg_seg R RO (small_tol R RO a b set) a b (fst s0) (snd s0)
-          = Ok (dist2, cp1, cp2, sc, tc) ->
+        seg_seg R RO a b (fst s0) (snd s0) = Ok (dist2, cp1, cp2, sc, tc) ->
         forall s t, 0 <= s <= 1 -> 0 <= t <= 1 ->
           dist2 <= normsq R RO
                      (vsub R RO (vadd R RO a (vscale R RO s (vsub R RO b a)))
@@ -113,20 +108,18 @@ Print Assumptions C30_segseg_set_optimal_partial.
 
 (* segment_set (all pairs): for positive-length segments and i < j the entries (i,j) and
    (j,i) carry the same squared distance, the closest points lie on segment i resp. j and
-   realise it; off the band of the call made for row i it is the minimum over both
-   segments.  The diagonal holds 0 and the mid points. *)
+   realise it; off the band it is the minimum over both segments.  The diagonal holds 0 and the mid points. *)
 Theorem C30_segment_set :
   forall (segs : list (v3 R * v3 R)) (i j : nat) (si sj : v3 R * v3 R),
     Forall proper segs -> (i < j)%nat ->
     nth_error segs i = Some si -> nth_error segs j = Some sj ->
-    let small := small_tol R RO (fst si) (snd si) (skipn (S i) segs) in
     exists d2 p q sc tc,
       sset_entry R RO segs i j = Ok (d2, p) /\ sset_entry R RO segs j i = Ok (d2, q) /\
       0 <= sc <= 1 /\ 0 <= tc <= 1 /\
       p = vadd R RO (fst si) (vscale R RO sc (vsub R RO (snd si) (fst si))) /\
       q = vadd R RO (fst sj) (vscale R RO tc (vsub R RO (snd sj) (fst sj))) /\
       d2 = normsq R RO (vsub R RO p q) /\
-      (off_band R RO small (fst si) (snd si) (fst sj) (snd sj) = true ->
+      (off_band R RO (fst si) (snd si) (fst sj) (snd sj) = true ->
        forall s t, 0 <= s <= 1 -> 0 <= t <= 1 ->
          d2 <= normsq R RO
                  (vsub R RO (vadd R RO (fst si) (vscale R RO s (vsub R RO (snd si) (fst si))))
@@ -201,8 +194,7 @@ Proof. vm_compute. repeat split. Qed.
 Example C30_off_band_examples :
   off_band_set Q QO (0, 0, 0)%Q (2, 0, 0)%Q
     [((1, -1, 1), (1, 1, 1)); ((0, 1, 0), (2, 1, 0)); ((3, 1, 0), (4, 5, 0))]%Q = true /\
-  off_band Q QO (4 # 100000000)%Q (0, 0, 0)%Q (2, 0, 0)%Q
-    (0, -(1 # 100000), 0)%Q (2, 1 # 100000, 0)%Q = false.
+  off_band Q QO (0, 0, 0)%Q (2, 0, 0)%Q (0, -(1 # 100000), 0)%Q (2, 1 # 100000, 0)%Q = false.
 Proof. vm_compute. split; reflexivity. Qed.
 
 (* inside the band the result need not be the minimum: two segments crossing at (1,0,0)
@@ -210,8 +202,7 @@ Proof. vm_compute. split; reflexivity. Qed.
    squared distance 1e-10 although the segments intersect (s = t = 1/2 gives 0) *)
 Example C30_segseg_band_example :
   (exists cp1 cp2 sc tc,
-     seg_seg Q QO (small_tol Q QO (0, 0, 0)%Q (2, 0, 0)%Q [((0, -(1 # 100000), 0), (2, 1 # 100000, 0))]%Q)
-       (0, 0, 0)%Q (2, 0, 0)%Q (0, -(1 # 100000), 0)%Q (2, 1 # 100000, 0)%Q
+     seg_seg Q QO (0, 0, 0)%Q (2, 0, 0)%Q (0, -(1 # 100000), 0)%Q (2, 1 # 100000, 0)%Q
      = Ok ((1 # 10000000000)%Q, cp1, cp2, sc, tc)) /\
   normsq Q QO (vsub Q QO (vadd Q QO (0, 0, 0) (vscale Q QO (1 # 2) (2, 0, 0)))
                          (vadd Q QO (0, -(1 # 100000), 0) (vscale Q QO (1 # 2) (2, 2 # 100000, 0))))%Q
